@@ -71,6 +71,23 @@ it caught it, and the unchanged tree was re-verified silent. What the misses tau
 | C40b | opcert cache keyed without the issuer key – needs a validator that has already seen a genuine header | validator histories on one instance |
 | C41b | VRF tie-break by `bytes.Compare` – pairs of different-length outputs were skipped by the reference | numeric reference for all lengths, mixed-length pool |
 | C44 | sequence number handed back with CAS – needs two submitters blocked at once | concurrent-submitter family (callers observed parked, every cancel position) |
+| C01c | stale Byron tx id when a DIFFERENT transaction is decoded into a used object – reuse was only tried with two encodings of the same object, and not for Byron | receiver reuse across sibling corpus objects, Byron included |
+| C05c | prefix test on the text (`addr1…`) instead of on the part before the LAST `1` | prefixes that contain / start with / end with the right one (`<hrp>1q`, `<hrp>1<hrp>`, `x<hrp>`, …), also upper-cased |
+| C08c | range check skipped after a byte scan for `0x20..0x3f`, `c2`, `c3` – bignum tag heads need not be one byte | bignum tag in 1- and 8-byte heads, padded and chunked bignums, 8-byte uint/nint; policy id without "noisy" bytes |
+| C09c, C17c | unregistering one direction of a protocol also unmaps the other direction | registration-table changes on a live full-duplex muxer (C09) and stop / restart histories on full-duplex connections (C17) |
+| C10c | reassembly waits for a continuation after every full segment – needs a message or packed batch of exactly k x 65535 bytes with nothing behind it | boundary-sized messages and two-message batches as the LAST thing sent |
+| C14c | previous state's timer survives the transition into a terminal state and fires there | terminal states kept alive for 3.5 x the timeout must stay quiet |
+| C15c | busy lock leaked when a range request is answered NoBlocks – only the NEXT call hangs | two- and three-call histories per client, every first-call outcome, then the connection ends |
+| C21c | stale "ready for next block" token left behind by `GetAvailableBlockRange` | other client calls before `Sync` on the same client |
+| C24c | ack counter reset after `InitFunc` returns – second session + requester started from `InitFunc` | multi-session histories with `InitFunc` held until the first request is on the wire |
+| C25c | era-history reply cached across re-acquire | same query kind repeated within / across acquisitions; reply-reuse check that needs no model |
+| C26c | presence of body keys 3 / 8 taken from a walk that stops at the first key > 8 | PRESENTATION independence: body / witness map key orders as a generic ledgergen facility (all ledger-rule monitors) and a judged C26 dimension |
+| C27c | asset totals alias and mutate the first UTxO's `*big.Int` – each fresh validation is right | HISTORY independence: re-validation on the same objects, inputs-not-mutated snapshots (generic), shared-state sequences (C27) |
+| C28c | process-wide cache of verified witnesses keyed without the tx id | replayed witnesses taken from a transaction that was really accepted earlier in the process; verdict before / after / again |
+| C30c | block-extracted Alonzo tx re-assembled from metadata instead of auxiliary data | block-extracted transactions with all three auxiliary-data shapes in every era – which found the same genuine defect in Shelley (fixed, `e021657`) |
+| C34c | stricter config option returns early and skips a check | every tamper family under every combination of the validation options ("options only add checks") |
+| C38c, C39c | memo of the last validated key (caller's slice retained) / of verified signatures (keyed by a prefix) | genuine -> tampered -> genuine -> tampered histories per entry point, tamper written IN PLACE into the buffers of the genuine call and as a fresh copy (also adopted by C40, C46) |
+| C43c | `outstanding` decremented twice by a context-expired Submit | failed-Submit-under-back-pressure, then drain with a block held in flight |
 """)
 r=V+'/seeded/RESULTS.md'
 if os.path.exists(r): print(open(r).read())
